@@ -94,6 +94,27 @@ fn op_rt<T: DeserializeOwned + Serialize>(a: &str) -> String {
     }
 }
 
+/// `rt3 <type> <value>`: ONE `Serializer` writes the value, `Some(value)` and the value again; ONE `Deserializer` reads them back as
+/// `T`, `Option<T>`, `T`: `<hex of the three> <shown 1> <shown 2> <shown 3> <end position>` (a serializer / deserializer is its
+/// writer / input and position: nothing an earlier value did may show in a later one).
+fn op_rt3<T: DeserializeOwned + Serialize>(a: &str) -> String {
+    let v = match build::<T>(a) { Ok(v) => v, Err(e) => return e };
+    let mut s = minicbor_serde::Serializer::new(Vec::new());
+    if let Err(e) = v.serialize(&mut s) { return format!("err:{}", class(&e.to_string())) }
+    if let Err(e) = Some(&v).serialize(&mut s) { return format!("err2:{}", class(&e.to_string())) }
+    if let Err(e) = v.serialize(&mut s) { return format!("err3:{}", class(&e.to_string())) }
+    let bytes = s.into_encoder().into_writer();
+    let mut d = minicbor_serde::Deserializer::new(&bytes);
+    let mut out = vec![hex(&bytes)];
+    match <T as serde::Deserialize>::deserialize(&mut d) { Ok(x) => out.push(show(&x)), Err(e) => return format!("{} de1:{}", out[0], class(&e.to_string())) }
+    match <Option<T> as serde::Deserialize>::deserialize(&mut d) {
+        Ok(Some(x)) => out.push(show(&x)), Ok(None) => out.push("N".into()),
+        Err(e) => return format!("{} de2:{}", out[0], class(&e.to_string())) }
+    match <T as serde::Deserialize>::deserialize(&mut d) { Ok(x) => out.push(show(&x)), Err(e) => return format!("{} de3:{}", out[0], class(&e.to_string())) }
+    out.push(d.decoder().position().to_string());
+    out.join(" ")
+}
+
 fn op_iser<T: DeserializeOwned + Serialize + minicbor::Encode<()>>(a: &str) -> String {
     let v = match build::<T>(a) { Ok(v) => v, Err(e) => return e };
     let n = match minicbor::to_vec(&v) { Ok(b) => hex(&b), Err(_) => "err".into() };
@@ -241,6 +262,7 @@ fn dispatch(w: &[&str]) -> String {
         "ser" => serde_types!(t, op_ser, a),
         "de" => serde_types!(t, op_de, a),
         "rt" => serde_types!(t, op_rt, a),
+        "rt3" => serde_types!(t, op_rt3, a),
         "iser" => shared_types!(t, op_iser, a, "bad-op".to_string()),
         "ide" => shared_types!(t, op_ide, a, "bad-op".to_string()),
         _ => "bad-op".into()
